@@ -96,6 +96,13 @@ def truncate (c : Changeset) (len : Nat) : Changeset :=
   let ends := (dropped.filter (· == .end_)).length
   { c with undos := c.undos.drop (c.undos.length - len), level := (c.level + ends) - begins }
 
+/-- `Changeset::truncate(len)` as the abort paths call it (repair of D48): when every group was closed
+    (`end()`, by a key that left vi insert mode inside the sub-loop) the `End` markers above `len` that
+    close groups opened below it are cut away too, so these groups are closed again afterwards
+    (`truncate` above is the cut itself) -/
+def truncateClosed (c : Changeset) (len : Nat) : Changeset :=
+  if c.level == 0 then ((c.truncate len).end_).1 else c.truncate len
+
 /-- `last_insert` -/
 def lastInsert (c : Changeset) : Option Text :=
   let rec go : List Change → Option Text
